@@ -337,3 +337,37 @@ pub open spec fn result_ok(g: &SymbolicAsyncGraph, s: Seq<char>, ext: bool, r: I
 pub open spec fn clean_result_ok(g: &SymbolicAsyncGraph, s: Seq<char>, ext: bool, r: &GraphColoredVertices) -> bool {
     result_ok(g, s, ext, gv(r)) && canonical_set(r)
 }
+
+// C05: "the extended parser yields the same tree as the plain one on every plain formula": on whatever the plain tokenizer
+// accepts, the extended tokenizer returns the same tokens (the parser is the same function for both)
+pub proof fn lemma_hdr_ext(s: Seq<char>)
+    ensures lex_hdr(s, false) is Some ==> lex_hdr(s, true) == lex_hdr(s, false)
+{
+}
+pub proof fn lemma_lex_ext(s: Seq<char>, top: bool)
+    ensures lex_group(s, top, false) is Some ==> lex_group(s, top, true) == lex_group(s, top, false)
+    decreases s.len()
+{
+    lemma_lex_group_unfold(s, top, false);
+    lemma_lex_group_unfold(s, top, true);
+    if s.len() == 0 {
+    } else if is_white_space(s[0]) {
+        lemma_lex_ext(s.drop_first(), top);
+    } else if s[0] == ')' {
+    } else if s[0] == '(' {
+        lemma_lex_ext(s.drop_first(), false);
+        match lex_group(s.drop_first(), false, false) {
+            Some((inner, r)) => { if r.len() < s.len() { lemma_lex_ext(r, top); } },
+            None => {},
+        }
+    } else {
+        lemma_hdr_ext(drop_name(s)); lemma_hdr_ext(s.drop_first()); lemma_hdr_ext(drop_name(s.drop_first()));
+        match lex_one(s, false) {
+            Some((tok, r)) => {
+                assert(lex_one(s, true) == lex_one(s, false));
+                if r.len() < s.len() { lemma_lex_ext(r, top); }
+            },
+            None => {},
+        }
+    }
+}
